@@ -60,6 +60,8 @@ def check(ctx):
     ctx.rule('C14.H4', 'every placement-new fits its buffer')
     ctx.rule('C14.H5', 'handle index and list slot come from the same PrototypeInfo')
     ctx.rule('C14.M', 'no use-after-move in heterogeneous dispatch / enqueue')
+    ctx.rule('C14.Q2', 'processIf reaches a doProcessIf level for exactly the prototypes its predicate is callable with')
+    ctx.rule('C14.L', 'invocation and enumeration hold an owning pointer to the per-prototype list')
     ctx.rule('C14.H6', 'every PrototypeInfo used by a member function matches the prototype list entry at its index')
     ctx.rule('C14.F', 'heterogeneous dispatcher: lookup and listener management map onto the per-event heterogeneous list; list-level remove / empty / forEach route by handle index')
     ctx.rule('C14.Q', 'heterogeneous queue: slot protocol and FIFO positions (exactly once, in place)')
@@ -70,6 +72,8 @@ def check(ctx):
         run_slot_rules(ctx, 'C14.Q', 'C14.Q', tu, only_kinds=('O-', 'P-'), classes=('HeterEventQueueBase',))
         check_value_categories(ctx, tu)
         check_protoinfo_coherence(ctx, tu)
+        check_processif_levels(ctx, tu)
+        check_keepalive(ctx, tu)
         from .c04 import check_listener_management
         check_listener_management(ctx, tu, 'HeterEventDispatcherBase', 'C14.F')
         check_heter_list_ops(ctx, tu, info)
@@ -92,6 +96,8 @@ def check(ctx):
     ctx.require_min('C14.M', 5)
     ctx.require_min('C14.Q', 4)
     ctx.require_min('C14.H6', 4)
+    ctx.require_min('C14.Q2', 1)
+    ctx.require_min('C14.L', 3)
     ctx.require_min('C14.F', 6)
     ctx.require_min('C14.V', 2)
     gen = os.path.join(extract.VERIF, 'witness', 's_heter_gen.cpp')
@@ -102,6 +108,72 @@ def check(ctx):
     if ctx.tier == 'thorough' and os.path.exists(big):
         witness.check_static_unit(ctx, 'C14.H1', big, 'first-match selection (large family)')
     witness.check_fail_unit(ctx, 'C14.H1', os.path.join(extract.VERIF, 'witness', 'f_heter.cpp'), 'no matching prototype')
+
+
+# witness predicates callable with several prototypes -> the prototype indices processIf has to examine ('all' = every listed one)
+PRED_EXPECT = {'wit::PredAll': 'all', 'wit::PredEnds': {0, 3}}
+
+
+def check_processif_levels(ctx, tu):
+    """Q2: processIf(pred) examines the events of every prototype pred is callable with: the chain of doProcessIf<PrototypeInfo> levels
+    reachable from processIf<F> covers exactly the callable prototypes (an early end of the search leaves later prototypes' events
+    unexamined for ever; an extra level examines events the predicate cannot be called with)."""
+    for f in tu.fns_named('HeterEventQueueBase::processIf'):
+        ft = fn_targ(f, 0)
+        fs = tu.tstr(ft).replace('&', '').replace('const ', '').strip() if ft is not None else ''
+        if fs not in PRED_EXPECT:
+            continue
+        ct = tu.type(f.d.get('clst'))
+        ta = (ct or {}).get('targs') or []
+        lt = tu.type(ta[1]) if len(ta) > 1 and isinstance(ta[1], int) else None
+        nproto = 0
+        for x in (lt or {}).get('targs', []):
+            nproto += 1 if isinstance(x, int) else len([y for y in x if isinstance(y, int)]) if isinstance(x, list) else 0
+        want = set(range(nproto)) if PRED_EXPECT[fs] == 'all' else set(PRED_EXPECT[fs])
+        got = set()
+        seen = set()
+        work = [f]
+        while work:
+            g = work.pop()
+            if g.id in seen:
+                continue
+            seen.add(g.id)
+            for n in g.calls():
+                cal = g.callee(n)
+                if cal and cal.get('name') == 'doProcessIf' and cal.get('fid', -1) in tu.by_id:
+                    h = tu.by_id[cal['fid']]
+                    pi = proto_info(tu, fn_targ(h, 0)) if fn_targ(h, 0) is not None else None
+                    if pi and pi[0] is not None and pi[0] >= 0:
+                        got.add(pi[0])
+                    work.append(h)
+        ctx.ob('C14.Q2', f, 'processIf examines the events of exactly the prototypes its predicate is callable with', got == want and nproto > 0,
+               detail='predicate %s over %d prototypes: levels instantiated for indices %s, callable with %s' % (fs, nproto, sorted(got), sorted(want)),
+               key_detail='levels ' + fs)
+
+
+def check_keepalive(ctx, tu):
+    """L: an invocation / enumeration of a heterogeneous list keeps the per-prototype list alive for its whole duration: the object the
+    underlying call is made on is owned by a local shared_ptr (a callback may assign to the heterogeneous list, which drops the table's
+    own reference while the underlying list is still running)."""
+    for f in tu.fns:
+        if f.cls != 'HeterCallbackListBase' or f.kind == 'lambda' or f.name not in ('operator()', 'forEach', 'forEachIf'):
+            continue
+        calls = [n for n in f.calls() if (f.callee(n) or {}).get('name') in ('operator()', 'forEach', 'forEachIf')
+                 and (f.callee_key(n) or '').startswith('CallbackListBase::')]
+        if not calls:
+            continue
+        bad = []
+        for n in calls:
+            o = f.call_obj(n) if f.call_obj(n) else (f.nodes[n].get('args') or [None])[0]
+            p = path(f, o) if o else ()
+            vid = root_var_id(p)
+            vd = f.var_decls().get(vid) if vid is not None else None
+            ts = tu.tstr(vd['t']) if vd else ''
+            if not (vd and ts.replace('const ', '').startswith('std::shared_ptr<')):
+                bad.append('%s (through %s)' % (f.nloc(n), ts or 'a non-local object'))
+        ctx.ob('C14.L', f, 'the underlying list is invoked / enumerated through a local owning shared_ptr', not bad,
+               detail='called without an owner in scope at %s: the list can be destroyed by a callback that assigns to the heterogeneous list'
+                      % ', '.join(bad), key_detail='keep-alive')
 
 
 def check_protoinfo_coherence(ctx, tu):
